@@ -1018,7 +1018,7 @@ package router
 //@ pred wfMessage(m wamp.Message) = !isnil(m) && (is(m, *wamp.Publish) ==> m.(*wamp.Publish) != nil) && (is(m, *wamp.Subscribe) ==> m.(*wamp.Subscribe) != nil) && (is(m, *wamp.Unsubscribe) ==> m.(*wamp.Unsubscribe) != nil) && (is(m, *wamp.Register) ==> m.(*wamp.Register) != nil) && (is(m, *wamp.Unregister) ==> m.(*wamp.Unregister) != nil) && (is(m, *wamp.Call) ==> m.(*wamp.Call) != nil) && (is(m, *wamp.Cancel) ==> m.(*wamp.Cancel) != nil) && (is(m, *wamp.Yield) ==> m.(*wamp.Yield) != nil) && (is(m, *wamp.Error) ==> m.(*wamp.Error) != nil) && (is(m, *wamp.Goodbye) ==> m.(*wamp.Goodbye) != nil)
 
 //@ func (r *realm) handleInboundMessages
-//@   props C05 C10
+//@   props C05 C10 C18
 //@   returnsite : [shutdown-only-for-the-realms-own-goodbye] result0 ==> goodbye == shutdownGoodbye || goodbye == wamp.NoGoodbye
 //@   requires r != nil && r.broker != nil && r.dealer != nil && !isnil(r.log) && !isnil(r.broker.log) && !isnil(r.dealer.log) && r.broker.filterFactory != nil && sess != nil && !isnil(sess.Peer)
 //@   callsite Goodbye : [goodbye-set-before-done-closes] assume-after result != nil
@@ -1124,7 +1124,7 @@ package router
 // Leaving: the realm goroutine drops the client entry and testaments and has
 // the dealer and broker remove the session, unless the whole realm shuts down.
 //@ closure (r *realm) onLeave 1
-//@   props C05 C02 C01
+//@   props C05 C02 C01 C03 C18
 //@   captures sess != nil && sync != nil && r != nil && r.dealer != nil && r.broker != nil && r.clients != nil && r.testaments != nil
 //@   callcount removeSession arg1
 //@   returnsite : [session-removed-from-dealer-and-broker-unless-realm-shuts-down] !shutdown ==> calls(removeSession, sess) == old(calls(removeSession, sess)) + 2
